@@ -295,6 +295,8 @@ pub enum Strategy {
     Exact(Vec<usize>),
     /// always prefer a "begin" event (decision vector breaks ties): maximal overlap
     MaxOverlap(Vec<u16>),
+    /// events of the listed systems go first (`first`) or only when nothing else is enabled
+    Prefer { sys: Vec<usize>, first: bool, begins_first: bool },
 }
 
 #[derive(Default, Clone, Debug)]
@@ -407,6 +409,33 @@ impl Conductor {
                     begins[(x * begins.len()) >> 16]
                 } else {
                     (x * n) >> 16
+                }
+            }
+            Strategy::Prefer {
+                sys,
+                first,
+                begins_first,
+            } => {
+                let mine: Vec<usize> = (0..n).filter(|i| sys.contains(&enabled[*i].0)).collect();
+                let other: Vec<usize> = (0..n).filter(|i| !sys.contains(&enabled[*i].0)).collect();
+                let pool = if *first {
+                    if !mine.is_empty() {
+                        mine
+                    } else {
+                        other
+                    }
+                } else if !other.is_empty() {
+                    other
+                } else {
+                    mine
+                };
+                if *begins_first {
+                    pool.iter()
+                        .cloned()
+                        .find(|i| enabled[*i].1 == 0)
+                        .unwrap_or(pool[0])
+                } else {
+                    pool[0]
                 }
             }
         };
